@@ -14,6 +14,11 @@
 //!                 generate} (index and name keys)
 //!        engine : a real Engine processes fills / balance snapshots (Engine::process), then
 //!                 Engine::trading_summary_generator(..).generate(..)
+//!        every mode generates with the risk-free return and the interval (Daily, Annual252,
+//!        Annual365, two custom TimeDelta) the behaviour names, at the exit times it names, and
+//!        compares the four ratio figures of every instrument sheet (pnl_return, sharpe_ratio,
+//!        sortino_ratio, calmar_ratio) with the squared / factored figures of Stats.tla, plus
+//!        their public scale() to a second interval
 //!   c17 replay --scenarios f --out results --seed S
 //!        DataSetSummary::update: every prefix, scales 10^e e in {-9,0,9}, permutations
 //!   c17 random --seed S --steps N --out results   random DECIMAL datasets of mixed magnitude, judged by
@@ -1268,10 +1273,11 @@ mod c16 {
                 asset::{TearSheetAsset, TearSheetAssetGenerator},
                 instrument::{TearSheet, TearSheetGenerator},
             },
-            time::Daily,
+            time::{Annual252, Annual365, Daily, TimeInterval},
         },
         strategy::DefaultStrategy,
     };
+    use chrono::TimeDelta;
     use barter_execution::{
         AccountEvent, AccountEventKind,
         balance::{AssetBalance, Balance},
@@ -1319,9 +1325,9 @@ mod c16 {
         }
         b.build()
     }
-    fn engine_state() -> State {
+    fn engine_state(start: i64) -> State {
         EngineState::builder(&instruments(), DefaultGlobalData::default(), DefaultInstrumentMarketData::default)
-            .time_engine_start(time(0))
+            .time_engine_start(time(start))
             .trading_state(TradingState::Disabled)
             .build()
     }
@@ -1375,10 +1381,61 @@ mod c16 {
     fn empty_sheet() -> Value {
         json!({"pnl": {"n": 0, "d": 1}, "win_rate": "none", "profit_factor": "none"})
     }
-    fn summary_json(s: &TradingSummary<Daily>) -> Value {
+    /// the interval names of the specification (Stats.tla, IvLen) as the real interval types
+    macro_rules! with_iv {
+        ($name:expr, $i:ident => $body:expr) => {
+            match $name {
+                "Daily" => { let $i = Daily; $body }
+                "Annual252" => { let $i = Annual252; $body }
+                "Annual365" => { let $i = Annual365; $body }
+                "Hours2" => { let $i = TimeDelta::hours(2); $body }
+                "Days500" => { let $i = TimeDelta::days(500); $body }
+                o => usage(&format!("unknown interval {o}")),
+            }
+        };
+    }
+    /// what a sheet is generated with: risk-free return, target interval, and the second interval the
+    /// figures are then rescaled to with their public scale()
+    #[derive(Clone)]
+    struct Query {
+        rf: Decimal,
+        iv: String,
+        iw: String,
+        /// project the ratio figures (the behaviour has expectations for them)
+        ratios: bool,
+    }
+    impl Query {
+        fn plain() -> Self {
+            Query { rf: Decimal::ZERO, iv: "Daily".into(), iw: "Daily".into(), ratios: false }
+        }
+    }
+    /// projection of the four ratio figures: value and interval (seconds) as generated, and after scale(iw)
+    fn ratios_json<I: TimeInterval, J: TimeInterval>(s: &TearSheet<I>, iw: J) -> Value {
+        let secs = [s.pnl_return.interval.interval(), s.sharpe_ratio.interval.interval(), s.sortino_ratio.interval.interval(), s.calmar_ratio.interval.interval()];
+        let vals = [s.pnl_return.value, s.sharpe_ratio.value, s.sortino_ratio.value, s.calmar_ratio.value];
+        // the public scale() of every figure (it takes decimal square roots and may panic: data)
+        let re = catch(|| {
+            let (a, b, c, d) = (s.pnl_return.clone().scale(iw), s.sharpe_ratio.clone().scale(iw), s.sortino_ratio.clone().scale(iw), s.calmar_ratio.clone().scale(iw));
+            [(a.value, a.interval.interval()), (b.value, b.interval.interval()), (c.value, c.interval.interval()), (d.value, d.interval.interval())]
+        });
+        let mut o = serde_json::Map::new();
+        for (k, name) in ["pnl_return", "sharpe_ratio", "sortino_ratio", "calmar_ratio"].iter().enumerate() {
+            o.insert(name.to_string(), match &re {
+                Ok(r) => json!({"v": vals[k].to_string(), "secs": secs[k].num_seconds(), "v2": r[k].0.to_string(), "secs2": r[k].1.num_seconds()}),
+                Err(p) => json!({"v": vals[k].to_string(), "secs": secs[k].num_seconds(), "panic2": p}),
+            });
+        }
+        Value::Object(o)
+    }
+    /// (summary projection as before, ratio figures per instrument key)
+    fn summary_json<I: TimeInterval, J: TimeInterval>(s: &TradingSummary<I>, iw: J, with_ratios: bool) -> (Value, Value) {
         let mut inst = serde_json::Map::new();
+        let mut ratios = serde_json::Map::new();
         for (name, sheet) in &s.instruments {
             let key = INSTR.iter().find(|x| x.2 == name.as_ref()).map(|x| x.0.to_string()).unwrap_or(format!("foreign:{name}"));
+            if with_ratios {
+                ratios.insert(key.clone(), ratios_json(sheet, iw));
+            }
             if inst.insert(key.clone(), sheet_json(sheet)).is_some() {
                 inst.insert(key, json!("duplicate key"));
             }
@@ -1390,7 +1447,7 @@ mod c16 {
                 assets.insert(key, json!("duplicate key"));
             }
         }
-        json!({"instruments": inst, "assets": assets})
+        (json!({"instruments": inst, "assets": assets}), Value::Object(ratios))
     }
 
     /// the expectation of the spec, completed for the keys the (smaller) model does not have and
@@ -1415,16 +1472,162 @@ mod c16 {
         json!({"instruments": inst, "assets": assets})
     }
 
+    // ---- the ratio figures against the squared / factored figures of Stats.tla
+    /// square root of a non-negative Decimal: f64 seed, Newton steps in Decimal (independent of
+    /// rust_decimal's own sqrt, which the code under test uses); checked by squaring
+    fn sqrt_dec(x: Decimal) -> Decimal {
+        use rust_decimal::prelude::{FromPrimitive, ToPrimitive};
+        if x.is_zero() {
+            return Decimal::ZERO;
+        }
+        let mut r = Decimal::from_f64(x.to_f64().unwrap_or(1.0).sqrt()).filter(|r| !r.is_zero()).unwrap_or(Decimal::ONE);
+        for _ in 0..2 {
+            r = (r + x / r) / Decimal::TWO;
+        }
+        let back = r * r;
+        assert!((back - x).abs() <= x.abs().max(Decimal::ONE) * Decimal::new(1, 20), "harness sqrt: {r}^2 = {back} for {x}");
+        r
+    }
+    fn kind_of(v: Decimal) -> &'static str {
+        if v == Decimal::MAX { "MAX" } else if v == Decimal::MIN { "MIN" } else { "num" }
+    }
+    fn tup_i(t: &Value, k: usize) -> i128 {
+        t[k].as_i64().unwrap_or_else(|| usage(&format!("bad figure tuple {t}"))) as i128
+    }
+    /// a mismatch on one ratio figure: enough for a stable signature
+    #[derive(Clone)]
+    struct RatioFail {
+        field: String,
+        case: String,
+        expk: String,
+        gotk: String,
+        error: String,
+    }
+    #[derive(Default)]
+    struct RatioStats {
+        compared: u64,
+        open: u64,
+        sentinel_scaled_down: u64,
+        rescaled: u64,
+        max_err_over_tol: Decimal,
+    }
+    /// `actual` against the figure <<k, sign, sq.n, sq.d, fac.n, fac.d, case, fac'.n, fac'.d>>:
+    /// value = sign * sqrt(sq * fac) within 1e-12 relative (the code takes decimal square roots);
+    /// a sentinel exactly, or - scaled down, its `fac` < 1 the lower end - any value of its sign from
+    /// MAX * sqrt(fac) up to MAX; "any": left open by the specification. `second`: after scale(iw), fac'.
+    fn check_fig(exp: &Value, second: bool, actual: Decimal, rs: &mut RatioStats) -> Result<(), String> {
+        let (fi, what) = if second { (7, " after scale()") } else { (4, "") };
+        let (fnum, fden) = (tup_i(exp, fi), tup_i(exp, fi + 1));
+        rs.compared += 1;
+        match exp[0].as_str().unwrap_or("?") {
+            "any" => {
+                rs.open += 1;
+                Ok(())
+            }
+            "num" => {
+                let (sign, sn, sd) = (tup_i(exp, 1), tup_i(exp, 2), tup_i(exp, 3));
+                let rad = Decimal::from_i128_with_scale(sn * fnum, 0) / Decimal::from_i128_with_scale(sd * fden, 0);
+                let expv = Decimal::from_i128_with_scale(sign, 0) * sqrt_dec(rad);
+                let tol = expv.abs().max(Decimal::ONE) * Decimal::new(1, 12);
+                // (the value under test may be anything, a sentinel included: no overflow in the judge)
+                let err = actual.checked_sub(expv).map(|d| d.abs()).unwrap_or(Decimal::MAX);
+                let over = err.checked_div(tol).unwrap_or(Decimal::MAX);
+                if over > rs.max_err_over_tol && err <= tol {
+                    rs.max_err_over_tol = over;
+                }
+                if err > tol {
+                    return Err(format!("expected {sign} * sqrt({sn}/{sd} * {fnum}/{fden}) (= {expv}){what}, got {actual} (tolerance {tol})"));
+                }
+                Ok(())
+            }
+            k @ ("MAX" | "MIN") => {
+                let sentinel = if k == "MAX" { Decimal::MAX } else { Decimal::MIN };
+                if fnum == fden {
+                    return if actual == sentinel { Ok(()) } else { Err(format!("expected {k}{what}, got {actual}")) };
+                }
+                // scaled down: open between the product and the sentinel, never the other sign
+                rs.sentinel_scaled_down += 1;
+                let lo = Decimal::MAX * sqrt_dec(Decimal::from_i128_with_scale(fnum, 0) / Decimal::from_i128_with_scale(fden, 0)) * (Decimal::ONE - Decimal::new(1, 12));
+                if actual.is_sign_negative() == sentinel.is_sign_negative() && actual.abs() >= lo {
+                    Ok(())
+                } else {
+                    Err(format!("expected {k} or at least {k} * sqrt({fnum}/{fden}){what}, got {actual}"))
+                }
+            }
+            o => usage(&format!("unknown figure kind {o}")),
+        }
+    }
+    /// the linear figure: `close` of the shared helpers, kept away from values it cannot subtract
+    fn check_linear(n: i128, d: i128, actual: Decimal, st: &mut ErrStats) -> Result<(), String> {
+        if actual.abs() > Decimal::from_i128_with_scale(10i128.pow(24), 0) {
+            return Err(format!("expected {n}/{d}, got {actual}"));
+        }
+        close(n, d, 0, actual, "value", st).map_err(|m| m.trim_start_matches("value: ").to_string())
+    }
+    /// the four figures of one instrument sheet; every mismatch is returned (the run goes on: one wrong
+    /// figure does not hide the others)
+    fn check_ratios(inst: &str, exp: &Value, got: &Value, ivlen: i64, iwlen: i64, st: &mut ErrStats, rs: &mut RatioStats) -> Vec<RatioFail> {
+        let mut fails = vec![];
+        let scale = exp["scale"].as_str().unwrap_or("?");
+        for field in ["pnl_return", "sharpe_ratio", "sortino_ratio", "calmar_ratio"] {
+            let (e, g) = (&exp[field], &got[field]);
+            let dec = |k: &str| g.get(k).and_then(|x| x.as_str()).and_then(|x| Decimal::from_str(x).ok());
+            let Some(v) = dec("v") else { usage(&format!("projection without {field}: {got}")) };
+            let (case, expk) = if field == "pnl_return" { ("value".to_string(), "num".to_string()) } else { (e[6].as_str().unwrap_or("?").to_string(), e[0].as_str().unwrap_or("?").to_string()) };
+            let mut fail = |sub: &str, gotk: &str, error: String| fails.push(RatioFail {
+                field: format!("{field}{sub}"), case: case.clone(), expk: expk.clone(), gotk: gotk.to_string(),
+                error: format!("ratios.{inst}.{field}{sub}: {error} [case {case}, scaled {scale}]"),
+            });
+            // as generated
+            let first = if field == "pnl_return" {
+                rs.compared += 1;
+                check_linear(tup_i(e, 0) * tup_i(e, 2), tup_i(e, 1) * tup_i(e, 3), v, st)
+            } else {
+                check_fig(e, false, v, rs)
+            };
+            let first_ok = first.is_ok();
+            if let Err(m) = first {
+                fail("", kind_of(v), m);
+            }
+            if g["secs"].as_i64() != Some(ivlen) {
+                fail(".interval", "num", format!("expected the requested interval of {ivlen} s, got {}", g["secs"]));
+            }
+            // rescaled with the figure's public scale() to the second interval (a figure that is already
+            // wrong as generated is not judged a second time)
+            match (dec("v2"), g.get("panic2")) {
+                _ if !first_ok => {}
+                (Some(v2), _) => {
+                    rs.rescaled += 1;
+                    let second = if field == "pnl_return" {
+                        check_linear(tup_i(e, 0) * tup_i(e, 4), tup_i(e, 1) * tup_i(e, 5), v2, st)
+                    } else {
+                        check_fig(e, true, v2, rs)
+                    };
+                    if let Err(m) = second {
+                        fail(".scale()", kind_of(v2), format!("scaled on from {ivlen} s to {iwlen} s: {m}"));
+                    }
+                    if g["secs2"].as_i64() != Some(iwlen) {
+                        fail(".scale().interval", "num", format!("expected the interval of {iwlen} s, got {}", g["secs2"]));
+                    }
+                }
+                (None, Some(p)) => fail(".scale()", "panic", format!("scale() to {iwlen} s panicked: {p}")),
+                _ => usage("projection without v2"),
+            }
+        }
+        fails
+    }
+
     #[derive(Clone, Copy)]
     struct Variant {
         e10: i32,   // scale of prices / pnl / balances: 10^e10 (returns are scale-free)
         salt: u64,  // per-step choices: side, price x quantity factorisation, fees, key type
+        start: i64, // session start (seconds after the harness epoch): exit times count from it
     }
     fn variant_of(scn: &Value, seed: u64, vi: u64) -> Variant {
         if let Some(v) = scn.get("variant").filter(|v| v.is_object()) {
-            return Variant { e10: i(v, "e10") as i32, salt: v["salt"].as_u64().unwrap_or(0) };
+            return Variant { e10: i(v, "e10") as i32, salt: v["salt"].as_u64().unwrap_or(0), start: v["start"].as_i64().unwrap_or(0) };
         }
-        Variant { e10: [0, 3, -3][pick(seed, vi, 1, 3) as usize], salt: pick(seed, vi, 2, 1 << 32) }
+        Variant { e10: [0, 3, -3][pick(seed, vi, 1, 3) as usize], salt: pick(seed, vi, 2, 1 << 32), start: [0, 1_000, 259_200][pick(seed, vi, 3, 3) as usize] }
     }
 
     /// How a closed position (pnl, cost) of the spec is concretised
@@ -1538,10 +1741,14 @@ mod c16 {
     }
 
     trait Sut {
-        /// `t_exit`: exit time in seconds (direct / summary; the engine mode derives its fill times from `step`)
-        fn closed(&mut self, inst: usize, p: &Plan, step: u64, t_exit: i64, key_by_name: bool) -> Result<(), String>;
+        /// `t_exit`: exit time in seconds; `spec_time`: it is the exit time the behaviour names (else the
+        /// engine mode derives its fill times from `step`, as it always did)
+        fn closed(&mut self, inst: usize, p: &Plan, step: u64, t_exit: i64, spec_time: bool, key_by_name: bool) -> Result<(), String>;
         fn balance(&mut self, asset: usize, total: Decimal, step: u64, key_by_name: bool) -> Result<(), String>;
-        fn generate(&mut self) -> Result<Value, String>;
+        /// (the summary projection, the ratio figures per instrument key)
+        fn generate(&mut self, q: &Query) -> Result<(Value, Value), String>;
+        /// a new session of one instrument (spec action Reset): TearSheetGenerator::reset(start)
+        fn reset(&mut self, inst: usize, start: i64) -> Result<(), String>;
         /// the session clock moves without an event (TradingSummaryGenerator::update_time_now)
         fn tick(&mut self, _t: i64) {}
         /// store + restore every running tear-sheet generator (spec action Persist: a stutter)
@@ -1577,24 +1784,33 @@ mod c16 {
         assets: Vec<TearSheetAssetGenerator>,
     }
     impl Sut for Direct {
-        fn closed(&mut self, inst: usize, p: &Plan, _step: u64, t_exit: i64, _: bool) -> Result<(), String> {
+        fn closed(&mut self, inst: usize, p: &Plan, _step: u64, t_exit: i64, _: bool, _: bool) -> Result<(), String> {
             let pos = exited(InstrumentIndex(inst), p, t_exit);
             catch(|| self.inst[inst].update_from_position(&pos))
+        }
+        fn reset(&mut self, inst: usize, start: i64) -> Result<(), String> {
+            catch(|| self.inst[inst].reset(time(start)))
         }
         fn balance(&mut self, asset: usize, total: Decimal, step: u64, _: bool) -> Result<(), String> {
             let b = asset_balance(AssetIndex(asset), total, step);
             catch(|| self.assets[asset].update_from_balance(Snapshot(&b)))
         }
-        fn generate(&mut self) -> Result<Value, String> {
-            let mut i = serde_json::Map::new();
-            for (n, g) in self.inst.iter_mut().enumerate() {
-                i.insert(INSTR[n].0.into(), sheet_json(&catch(|| g.generate(Decimal::ZERO, Daily))?));
-            }
+        fn generate(&mut self, q: &Query) -> Result<(Value, Value), String> {
+            let (mut i, mut r) = (serde_json::Map::new(), serde_json::Map::new());
+            with_iv!(q.iv.as_str(), iv => with_iv!(q.iw.as_str(), iw => {
+                for (n, g) in self.inst.iter_mut().enumerate() {
+                    let sheet = catch(|| g.generate(q.rf, iv))?;
+                    i.insert(INSTR[n].0.into(), sheet_json(&sheet));
+                    if q.ratios {
+                        r.insert(INSTR[n].0.into(), ratios_json(&sheet, iw));
+                    }
+                }
+            }));
             let mut a = serde_json::Map::new();
             for (n, g) in self.assets.iter_mut().enumerate() {
                 a.insert(ASSET[n].0.into(), asset_json(&catch(|| g.generate())?));
             }
-            Ok(json!({"instruments": i, "assets": a}))
+            Ok((json!({"instruments": i, "assets": a}), Value::Object(r)))
         }
         fn persist(&mut self) -> Result<(), String> {
             self.inst.iter_mut().try_for_each(|g| restore(g, "TearSheetGenerator"))?;
@@ -1607,7 +1823,11 @@ mod c16 {
         g: TradingSummaryGenerator,
     }
     impl Sut for Summary {
-        fn closed(&mut self, inst: usize, p: &Plan, _step: u64, t_exit: i64, by_name: bool) -> Result<(), String> {
+        fn reset(&mut self, inst: usize, start: i64) -> Result<(), String> {
+            let g = self.g.instruments.get_index_mut(inst).map(|(_, g)| g).ok_or("TOOL: no such instrument in the summary generator")?;
+            catch(|| g.reset(time(start)))
+        }
+        fn closed(&mut self, inst: usize, p: &Plan, _step: u64, t_exit: i64, _: bool, by_name: bool) -> Result<(), String> {
             if by_name {
                 let pos = exited(InstrumentNameInternal::new(INSTR[inst].2), p, t_exit);
                 catch(|| self.g.update_from_position(&pos))
@@ -1632,9 +1852,11 @@ mod c16 {
                 catch(|| self.g.update_from_balance(Snapshot(&b)))
             }
         }
-        fn generate(&mut self) -> Result<Value, String> {
+        fn generate(&mut self, q: &Query) -> Result<(Value, Value), String> {
             keys_agree(&self.g)?;
-            Ok(summary_json(&catch(|| self.g.generate(Daily))?))
+            // (the risk-free return of a summary generator is the public field its init() sets)
+            self.g.risk_free_return = q.rf;
+            with_iv!(q.iv.as_str(), iv => with_iv!(q.iw.as_str(), iw => Ok(summary_json(&catch(|| self.g.generate(iv))?, iw, q.ratios))))
         }
     }
 
@@ -1643,10 +1865,10 @@ mod c16 {
         e: Eng,
         trades: u64,
     }
-    fn new_engine() -> Eng {
-        let state = engine_state();
+    fn new_engine(start: i64) -> Eng {
+        let state = engine_state(start);
         let txs = MultiExchangeTxMap::from_iter(EXCHANGES.iter().map(|e| (*e, None)));
-        Engine::new(HistoricalClock::new(time(0)), state, txs, DefaultStrategy::default(), DefaultRiskManager::default())
+        Engine::new(HistoricalClock::new(time(start)), state, txs, DefaultStrategy::default(), DefaultRiskManager::default())
     }
     impl EngineSut {
         fn fill(&mut self, inst: usize, side: Side, price: Decimal, qty: Decimal, fee: Decimal, t: i64) -> Result<Option<PositionExited<QuoteAsset>>, String> {
@@ -1678,8 +1900,13 @@ mod c16 {
         }
     }
     impl Sut for EngineSut {
-        fn closed(&mut self, inst: usize, p: &Plan, step: u64, _t_exit: i64, _: bool) -> Result<(), String> {
-            let t = 2 * step as i64;
+        fn reset(&mut self, inst: usize, start: i64) -> Result<(), String> {
+            catch(|| self.e.state.instruments.instrument_index_mut(&InstrumentIndex(inst)).tear_sheet.reset(time(start)))
+        }
+        fn closed(&mut self, inst: usize, p: &Plan, step: u64, t_exit: i64, spec_time: bool, _: bool) -> Result<(), String> {
+            // fill times: t + 1 (open, reduce), t + 2 (close) as before, or all at the exit time the behaviour names
+            let (t, t1, t2) = (2 * step as i64, if spec_time { t_exit } else { 2 * step as i64 + 1 }, if spec_time { t_exit } else { 2 * step as i64 + 2 });
+            let _ = t;
             let exit = p.exit;
             if exit <= Decimal::ZERO {
                 return Err(format!("TOOL: plan has a non-positive exit price {exit}"));
@@ -1689,25 +1916,25 @@ mod c16 {
                 if !open.is_some_and(|o| o.side == p.side && o.quantity_abs == p.qty && o.price_entry_average == p.price) {
                     return Err(format!("TOOL: the crossing fill did not leave the planned open position (C02 domain): {open:?}"));
                 }
-            } else if self.fill(inst, p.side, p.price, p.qty, p.fee_in, t + 1)?.is_some() {
+            } else if self.fill(inst, p.side, p.price, p.qty, p.fee_in, t1)?.is_some() {
                 return Err("TOOL: the opening fill closed a position".into());
             }
             let done = if let Some(q2) = p.flip_leftover {
                 // crossing fill: closes the position and opens the next one on the other side
-                self.fill(inst, opposite(p.side), exit, p.qty + q2, Decimal::ZERO, t + 2)?
+                self.fill(inst, opposite(p.side), exit, p.qty + q2, Decimal::ZERO, t2)?
             } else if p.partial {
                 let half = p.qty / Decimal::TWO;
-                if self.fill(inst, opposite(p.side), exit, half, Decimal::ZERO, t + 1)?.is_some() {
+                if self.fill(inst, opposite(p.side), exit, half, Decimal::ZERO, t1)?.is_some() {
                     return Err("TOOL: the reducing fill closed the position".into());
                 }
-                self.fill(inst, opposite(p.side), exit, half, p.fee_out, t + 2)?
+                self.fill(inst, opposite(p.side), exit, half, p.fee_out, t2)?
             } else {
-                self.fill(inst, opposite(p.side), exit, p.qty, p.fee_out, t + 2)?
+                self.fill(inst, opposite(p.side), exit, p.qty, p.fee_out, t2)?
             };
             // the history of this instrument must be the planned one; producing closed positions
             // from fills is C02's subject, a deviation here is not a C16 verdict
             let Some(x) = done else { return Err("TOOL: the closing fill did not close the position (C02 domain)".into()) };
-            if x.pnl_realised != p.pnl || x.price_entry_average * x.quantity_abs_max != p.price * p.qty || x.instrument != InstrumentIndex(inst) {
+            if x.pnl_realised != p.pnl || x.price_entry_average * x.quantity_abs_max != p.price * p.qty || x.instrument != InstrumentIndex(inst) || x.time_exit != time(t2) {
                 return Err(format!("TOOL: engine closed {x:?}, planned pnl {} cost {} (C02 domain)", p.pnl, p.price * p.qty));
             }
             Ok(())
@@ -1720,10 +1947,10 @@ mod c16 {
             }));
             catch(|| self.e.process(ev)).map(|_| ())
         }
-        fn generate(&mut self) -> Result<Value, String> {
-            let mut g = catch(|| self.e.trading_summary_generator(Decimal::ZERO))?;
+        fn generate(&mut self, q: &Query) -> Result<(Value, Value), String> {
+            let mut g = catch(|| self.e.trading_summary_generator(q.rf))?;
             keys_agree(&g)?;
-            Ok(summary_json(&catch(|| g.generate(Daily))?))
+            with_iv!(q.iv.as_str(), iv => with_iv!(q.iw.as_str(), iw => Ok(summary_json(&catch(|| g.generate(iv))?, iw, q.ratios))))
         }
         fn persist(&mut self) -> Result<(), String> {
             self.e.state.instruments.0.values_mut().try_for_each(|st| restore(&mut st.tear_sheet, "TearSheetGenerator"))?;
@@ -1754,17 +1981,17 @@ mod c16 {
         Ok(())
     }
 
-    fn new_sut(mode: &str) -> Box<dyn Sut> {
+    fn new_sut(mode: &str, start: i64) -> Box<dyn Sut> {
         match mode {
             "direct" => Box::new(Direct {
-                inst: INSTR.iter().map(|_| TearSheetGenerator::init(time(0))).collect(),
+                inst: INSTR.iter().map(|_| TearSheetGenerator::init(time(start))).collect(),
                 assets: ASSET.iter().map(|_| TearSheetAssetGenerator::default()).collect(),
             }),
             "summary" => {
-                let s = engine_state();
-                Box::new(Summary { g: TradingSummaryGenerator::init(Decimal::ZERO, time(0), time(0), &s.instruments, &s.assets) })
+                let s = engine_state(start);
+                Box::new(Summary { g: TradingSummaryGenerator::init(Decimal::ZERO, time(start), time(start), &s.instruments, &s.assets) })
             }
-            "engine" => Box::new(EngineSut { e: new_engine(), trades: 0 }),
+            "engine" => Box::new(EngineSut { e: new_engine(start), trades: 0 }),
             m => usage(&format!("unknown mode {m}")),
         }
     }
@@ -1776,21 +2003,28 @@ mod c16 {
         let scenarios = read_ndjson(args.req("scenarios"));
         let mut res = Results::new(args.req("out"));
         let mut tool_errors = vec![];
-        let mut arms = [0u64; 11]; // wins, losses, break-even, balances, generate, by-name keys, flips, equal exits, late exits, clock ticks
+        let mut arms = [0u64; 13]; // wins, losses, break-even, balances, generate, by-name keys, flips, equal exits, late exits, clock ticks, store/restore, resets, sheets with ratio figures
+        let (mut st, mut rs) = (ErrStats::default(), RatioStats::default());
+        let mut ratio_cases: std::collections::BTreeMap<String, u64> = Default::default();
         for (n, scn) in scenarios.iter().enumerate() {
             let vi = vidx(scn, n);
             let var = variant_of(scn, seed, vi);
             let evs = scn["evs"].as_array().unwrap_or_else(|| usage("scenario without evs"));
-            let mut sut = new_sut(&mode);
+            let mut sut = new_sut(&mode, var.start);
             let plans = plan_scenario(evs, var);
             let mut failure = None;
+            // mismatches on ratio figures do not end the run: the first of every kind is kept
+            let mut ratio_fails: Vec<(String, usize, RatioFail, Value, Value)> = vec![];
             let mut pre = json!("initial");
-            let (mut last_t, mut inst_last) = (0i64, [0i64; 4]);
+            // absolute times (seconds after the harness epoch): the latest event, per instrument the start of
+            // its session and its latest exit
+            let (mut last_t, mut inst_last, mut sess_start) = (var.start, [var.start; 4], [var.start; 4]);
             for (k, e) in evs.iter().enumerate() {
                 res.steps += 1;
                 let step = k as u64;
                 let by_name = pick(var.salt, step, 9, 2) == 1;
-                let base_t = 2 * step as i64 + 2;
+                let base_t = var.start + 2 * step as i64 + 2;
+                let spec_t = e.get("t").and_then(|t| t.as_i64());
                 let mut shown = json!({"a": e["a"], "k": e["k"], "x": e["x"], "y": e["y"], "by_name": by_name});
                 let applied = match s(e, "a") {
                     "AddClosed" => {
@@ -1800,18 +2034,32 @@ mod c16 {
                         let _ = cost;
                         let p = plans[k].clone().expect("planned");
                         let inst = instr_no(s(e, "k"));
-                        // exit times (direct / summary): the summary generator has ONE clock for all keys, so
-                        // equal exit times across instruments, exits reported late (behind another key's exit or
-                        // a balance update) and explicit clock updates are all legitimate
+                        // exit times: the summary generator has ONE clock for all keys, so equal exit times across
+                        // instruments, exits reported late (behind another key's exit or a balance update) and
+                        // explicit clock updates are all legitimate
                         let mut t_exit = base_t;
-                        match pick(var.salt, step, 11, 5) {
-                            2 if last_t > 0 => { t_exit = last_t.max(inst_last[inst]); arms[7] += (t_exit == last_t) as u64; }
-                            3 => { t_exit = inst_last[inst] + 1; arms[8] += (t_exit < last_t) as u64; }
-                            4 => { sut.tick(base_t + 1); arms[9] += 1; }
-                            _ => {}
+                        if let Some(t) = spec_t {
+                            // the behaviour names the exit time (seconds since the start of the instrument's session);
+                            // instruments have their own times, so equal and late exits across keys come by themselves
+                            t_exit = sess_start[inst] + t;
+                            arms[7] += (k > 0 && t_exit == last_t) as u64;
+                            arms[8] += (t_exit < last_t) as u64;
+                            if pick(var.salt, step, 11, 5) == 4 {
+                                sut.tick(last_t.max(t_exit) + 1);
+                                arms[9] += 1;
+                            }
+                        } else {
+                            match pick(var.salt, step, 11, 5) {
+                                2 if last_t > 0 => { t_exit = last_t.max(inst_last[inst]); arms[7] += (t_exit == last_t) as u64; }
+                                3 => { t_exit = inst_last[inst] + 1; arms[8] += (t_exit < last_t) as u64; }
+                                4 => { sut.tick(base_t + 1); arms[9] += 1; }
+                                _ => {}
+                            }
+                            if mode == "engine" {
+                                t_exit = base_t;
+                            }
                         }
                         if mode == "engine" {
-                            t_exit = base_t;
                             arms[6] += p.flip_leftover.is_some() as u64;
                         }
                         inst_last[inst] = t_exit;
@@ -1819,9 +2067,10 @@ mod c16 {
                         shown["position"] = json!({"side": format!("{:?}", p.side), "price_entry_average": p.price.to_string(),
                             "quantity_abs_max": p.qty.to_string(), "pnl_realised": p.pnl.to_string(), "fee_in": p.fee_in.to_string(),
                             "fee_out": p.fee_out.to_string(), "exit_price": p.exit.to_string(), "partial_close": p.partial, "time_exit": t_exit,
+                            "seconds_since_session_start": t_exit - sess_start[inst],
                             "opened_by_crossing_fill": p.opened_by_flip,
                             "closed_by_crossing_fill_leaving": p.flip_leftover.map(|q| q.to_string())});
-                        sut.closed(inst, &p, step, t_exit, by_name)
+                        sut.closed(inst, &p, step, t_exit, spec_t.is_some(), by_name)
                     }
                     "AddBalance" => {
                         arms[3] += 1;
@@ -1830,11 +2079,20 @@ mod c16 {
                     }
                     "Generate" => {
                         arms[4] += 1;
-                        sut.generate().map(|_| ())
+                        sut.generate(&Query::plain()).map(|_| ())
                     }
                     "Persist" => {
                         arms[10] += 1;
                         sut.persist()
+                    }
+                    "Reset" => {
+                        // a new session of this instrument, starting at or after its latest exit
+                        arms[11] += 1;
+                        let inst = instr_no(s(e, "k"));
+                        let start = inst_last[inst] + [0, 1, 3_600][pick(var.salt, step, 21, 3) as usize];
+                        (sess_start[inst], inst_last[inst]) = (start, start);
+                        shown["new_session_start"] = json!(start);
+                        sut.reset(inst, start)
                     }
                     a => usage(&format!("unknown action {a}")),
                 };
@@ -1843,7 +2101,19 @@ mod c16 {
                 let stored = s(e, "a") != "Persist" && pick(var.salt, step, 15, 5) == 0;
                 arms[10] += stored as u64;
                 shown["stored_and_restored_after"] = json!(stored);
-                let got = applied.and_then(|_| if stored { sut.persist() } else { Ok(()) }).and_then(|_| sut.generate());
+                // ... with the ratio figures for the risk-free return and the interval the behaviour names
+                let ratios = e.get("ratios").filter(|r| r.is_object());
+                let q = match ratios {
+                    Some(r) => {
+                        let (rn, rd) = rat_of(&r["rf"]).unwrap_or_else(|| usage("ratios without rf"));
+                        Query { rf: Decimal::from_i128_with_scale(rn, 0) / Decimal::from_i128_with_scale(rd, 0), iv: s(r, "iv").into(), iw: s(r, "iw").into(), ratios: true }
+                    }
+                    None => Query::plain(),
+                };
+                if ratios.is_some() {
+                    shown["generate"] = json!({"risk_free_return": q.rf.to_string(), "interval": q.iv, "then_scaled_to": q.iw});
+                }
+                let got = applied.and_then(|_| if stored { sut.persist() } else { Ok(()) }).and_then(|_| sut.generate(&q));
                 match got {
                     Err(p) if p.starts_with("TOOL:") => {
                         tool_errors.push(format!("scenario {n} step {k}: {p}"));
@@ -1853,8 +2123,26 @@ mod c16 {
                         failure = Some((k, if p.starts_with("KEYS:") { format!("summary.keys: {p}") } else if p.starts_with("Persist") { format!("summary.persist: {p}") } else { format!("panic: {p}") }, shown));
                         break;
                     }
-                    Ok(actual) => match json_match(&complete(&e["exp"], var.e10), &actual, "summary") {
-                        Ok(()) => pre = actual,
+                    Ok((actual, actual_ratios)) => match json_match(&complete(&e["exp"], var.e10), &actual, "summary") {
+                        Ok(()) => {
+                            if let Some(r) = ratios {
+                                for (key, ..) in INSTR {
+                                    // (keys the smaller model does not have: the sheet of the empty history)
+                                    let exp = r["instruments"].get(key).unwrap_or(&r["empty"]);
+                                    arms[12] += 1;
+                                    for f in ["sharpe_ratio", "sortino_ratio", "calmar_ratio"] {
+                                        *ratio_cases.entry(format!("{f}:{}:{}", exp[f][6].as_str().unwrap_or("?"), exp["scale"].as_str().unwrap_or("?"))).or_default() += 1;
+                                    }
+                                    for f in check_ratios(key, exp, &actual_ratios[key], i(r, "ivlen"), i(r, "iwlen"), &mut st, &mut rs) {
+                                        let sig = format!("{}|{}|{}|{}", f.field, f.case.split(':').next().unwrap_or(""), f.expk, f.gotk);
+                                        if !ratio_fails.iter().any(|x| x.0 == sig) {
+                                            ratio_fails.push((sig, k, f, shown.clone(), json!({"summary": pre, "ratio_figures_now": actual_ratios[key]})));
+                                        }
+                                    }
+                                }
+                            }
+                            pre = actual
+                        }
                         Err(err) => {
                             failure = Some((k, err, shown));
                             break;
@@ -1862,16 +2150,27 @@ mod c16 {
                     },
                 }
             }
-            let extra = json!({"mode": mode, "variant": {"e10": var.e10, "salt": var.salt}});
-            match failure {
-                None => res.ok(n, vi, extra),
-                Some((k, err, ev)) => res.fail(n, vi, k, err, ev, pre, extra),
+            let extra = json!({"mode": mode, "variant": {"e10": var.e10, "salt": var.salt, "start": var.start}});
+            let clean = failure.is_none() && ratio_fails.is_empty();
+            if clean {
+                res.ok(n, vi, extra.clone());
+            }
+            if let Some((k, err, ev)) = failure {
+                res.fail(n, vi, k, err, ev, pre, extra.clone());
+            }
+            for (_, k, f, ev, before) in ratio_fails {
+                let mut x = extra.clone();
+                x["ratio"] = json!({"field": f.field, "case": f.case, "expected_kind": f.expk, "got_kind": f.gotk});
+                res.fail(n, vi, k, f.error, ev, before, x);
             }
         }
-        let (scn, failed, steps) = (res.scenarios, res.failed, res.steps);
+        let (scn, failed, steps) = (scenarios.len(), res.failed, res.steps);
         res.out.finish();
         println!("{}", json!({"scenarios": scn, "failed": failed, "events": steps, "mode": mode, "tool_errors": tool_errors,
             "arm_hits": {"win": arms[0], "loss": arms[1], "break_even": arms[2], "balance": arms[3], "generate_event": arms[4], "keyed_by_name": arms[5],
-                         "crossing_fill": arms[6], "equal_exit_time": arms[7], "late_reported_exit": arms[8], "clock_update": arms[9], "store_restore": arms[10]}}));
+                         "crossing_fill": arms[6], "equal_exit_time": arms[7], "late_reported_exit": arms[8], "clock_update": arms[9], "store_restore": arms[10],
+                         "reset": arms[11], "sheets_with_ratio_figures": arms[12]},
+            "ratio_figures": {"compared": rs.compared, "left_open_by_the_spec": rs.open, "sentinel_scaled_down": rs.sentinel_scaled_down,
+                              "rescaled_with_scale()": rs.rescaled, "max_error_over_tolerance": rs.max_err_over_tol.to_string(), "cases": ratio_cases}}));
     }
 }
